@@ -13,7 +13,7 @@ import itertools
 from mc import gcheck, graphref, harness, par
 
 PID = "C04"
-FORMS_GRAPH = ["vars", "array1d", "neg", "const", "mixed", "eq"]
+FORMS_GRAPH = ["vars", "array1d", "neg", "const", "mixed", "eq", "used-solver"]
 
 
 def oracle(n, edges, pattern, acyclic):
@@ -42,6 +42,20 @@ def build(case, pattern=None):
     if form in ("vars", "array1d"):
         x = s.bool_array(n)
         graph.active_vertices_connected(s, x if form == "array1d" else list(x), g, **kw)
+        return s, (lambda p: [gcheck.fix(v, b) for v, b in zip(x, p)])
+    if form == "used-solver":
+        # not the first thing posted on this Solver: earlier variables / constraints, the activity variables declared
+        # long before the call, and an unrelated second connectivity constraint afterwards
+        junk_b = s.bool_array(3)
+        junk_i = s.int_array(2, -1, 4)
+        x = s.bool_array(n)
+        s.ensure(junk_b[0] | ~junk_b[0], junk_i[0] <= junk_i[1] + 5)
+        pad = s.int_array(2, 0, 1)
+        s.ensure(pad[0] + pad[1] >= 0)
+        graph.active_vertices_connected(s, list(reversed(list(reversed(list(x))))), g, **kw)
+        other = s.bool_array(2)
+        g2 = gcheck.make_graph(2, [(0, 1)])
+        graph.active_vertices_connected(s, other, g2, **kw)
         return s, (lambda p: [gcheck.fix(v, b) for v, b in zip(x, p)])
     if form == "neg":
         x = s.bool_array(n)
@@ -85,7 +99,7 @@ def run_case(part, case, prange=None):
                 part.violation(key + ":build-raises-" + type(e).__name__, case, {"exception": repr(e)[:300]})
                 return
             nat = gcheck.count_native(s.constraints)
-            want_nat = 1 if effective_primitive(case) else 0
+            want_nat = (2 if case["form"] == "used-solver" else 1) if effective_primitive(case) else 0
             part.count("evaluations")
             if nat != want_nat:
                 part.violation(key + ":encoding-choice", case, {"native_operators": nat, "expected": want_nat})
@@ -147,7 +161,7 @@ def cases_for(tier):
                 if var and not edges:
                     continue
                 es = graphref.orient(edges, var)
-                forms = FORMS_GRAPH if (n <= 3 and var == 0) else (["vars"] if var or n == 5 else ["vars", "neg", "const"])
+                forms = FORMS_GRAPH if (n <= 3 and var == 0) else (["vars"] if var or n == 5 else ["vars", "neg", "const", "used-solver"])
                 for form in forms:
                     for acyclic in (False, True):
                         for ugp, cfg in ((False, False), (True, False), ("default", False), ("default", True), (False, True)):
@@ -251,7 +265,7 @@ def main(tier, seed, only=None):
         "exploration",
         "all labelled simple graphs with n<=%d vertices (n<=4 in 3 edge-list presentations: as is, every pair reversed, alternating), "
         "multigraphs on 2-3 vertices with parallel edges in both orientations, 5 selected 6-vertex graphs, all grid shapes with <= %d cells (BoolArray2D form); all 2^n activity patterns; is_active as "
-        "variables / BoolArray1D / negated variables / Python constants / mixed variable-constant lists / x==y over two vectors "
+        "variables / BoolArray1D / negated variables / a Solver that already holds other variables, constraints and a second connectivity constraint / Python constants / mixed variable-constant lists / x==y over two vectors "
         "(all 4^n underlying assignments, n<=3); acyclic off/on; use_graph_primitive False / True / None with the config flag off/on. "
         "Scale family (not exhaustive): on boards up to %s the serpentine corridor, its one-cell perturbations, the full board, a closed cycle, "
         "boustrophedon prefixes and sparse sets.  Each (case, pattern) is one find_answer through cspuz's z3 backend (native-aware harness backend when the program "
